@@ -419,6 +419,14 @@ pub struct EngineCase {
     pub fperiod_override: Option<usize>,
     pub labels: Vec<String>,
     pub times: Vec<Option<(f64, f64)>>,
+    /// speaking rate set on the engine: with alignment on it has no say over annotated labels, and
+    /// labels that fall back to their model durations are not rescaled either
+    #[serde(default = "one")]
+    pub speed: f64,
+}
+
+fn one() -> f64 {
+    1.0
 }
 
 pub struct EngineAlign;
@@ -456,7 +464,8 @@ impl Prop for EngineAlign {
         let nstate = voice.as_ref().map(|v| v.num_states).unwrap_or(5) as f64;
         let typical = nstate * t.log_uniform(0.5, 6.0);
         let times = gen_text_times(t, n, frame_100ns, typical, 5.9e9);
-        EngineCase { voice, rate_override, fperiod_override, labels, times }
+        let speed = if t.chance(0.3) { t.log_uniform(0.4, 3.0) } else { 1.0 };
+        EngineCase { voice, rate_override, fperiod_override, labels, times, speed }
     }
     fn check(&self, c: &EngineCase) -> Result<Report, Failure> {
         let (_tmp, mut engine) = match &c.voice {
@@ -474,6 +483,7 @@ impl Prop for EngineAlign {
             },
         };
         engine.condition.set_phoneme_alignment_flag(true);
+        engine.condition.set_speed(c.speed);
         if let Some(r) = c.rate_override {
             engine.condition.set_sampling_frequency(r);
         }
@@ -570,6 +580,7 @@ impl Prop for EngineAlign {
         rep.class(if c.voice.is_some() { "voice:generated" } else { "voice:bundled" });
         rep.class_if(c.rate_override.is_some(), "rate-override");
         rep.class_if(c.fperiod_override.is_some(), "fperiod-override");
+        rep.class_if(c.speed != 1.0, "speed-set");
         rep.classes.sort();
         rep.classes.dedup();
         Ok(rep)
